@@ -231,7 +231,7 @@ def case_cli(run, i):
         want = list(zip(seen["chromosome"], seen["start"], seen["end"], (int(p) for p in seen["probes"])))
         if got != want:
             run.violate(mon, "cns-file-differs-from-result", f"{len(got)} rows written, {len(want)} segments returned", {"file": got[:50], "returned": want[:50]})
-        elif any(abs(float(r["log2"]) - l) > 1e-5 * max(1, abs(l)) for r, l in zip(rows, seen["log2"])):
+        elif any(abs(float(r["log2"]) - l) > 1e-5 * abs(l) + 1e-12 for r, l in zip(rows, seen["log2"])):
             run.violate(mon, "cns-file-log2-differs", "log2 in the file differs from the returned table beyond %.6g", {"file": rows[:20]})
         else:
             run.held(mon, f"cli-file:{method}")
